@@ -152,6 +152,22 @@ def Spec.component {τ ν : Type} (enc : τ → ν → Enc) (cols : List (Col τ
 def Spec.firstMarker {τ : Type} (name : String) (cols : List (Col τ)) : Option Nat :=
   cols.findIdx? (fun c => decide (c.name = name))
 
+/-! ### the table's partition key from the schema rows (metadata.go compileV2Metadata) -/
+
+/-- `componentColumnCountOfType`: the largest position + 1 (rows: name, position of the partition-key columns) -/
+def pkCount : List (String × Nat) → Nat
+  | [] => 0
+  | (_, p) :: r => max (p + 1) (pkCount r)
+
+/-- `table.PartitionKey[column.ComponentIndex] = column` for every partition-key column row, in arrival order -/
+def place : List (String × Nat) → List (Option String) → List (Option String)
+  | [], a => a
+  | (n, p) :: r, a => place r (a.set p (some n))
+
+/-- `TableMetadata.PartitionKey` (names; `none` = a nil entry) -/
+def schemaPartitionKey (pk : List (String × Nat)) : List (Option String) :=
+  place pk (List.replicate (pkCount pk) none)
+
 /-! ### token ring order (token.go `newTokenRing`: parse every token string, `sort.Sort`) -/
 
 def intLe (a b : Int) : Bool := decide (a ≤ b)
